@@ -24,7 +24,8 @@ CHECKS = {
     "C10": {
         "text": "Machine-checked proof over the handler model: on arbitrary bytes in arbitrary pieces the connection layer yields only "
                 "frames followed by one clean end/reset/error (no panic, abort or exhausted fuel), the handler never panics, and the "
-                "store changes exactly by the commands the command parser accepted before the first rejected frame; partial: that a "
+                "store changes exactly by the commands the command parser accepted before the first rejected frame (also with the engine "
+                "model in place of the map: invariant kept, files reached only through accepted commands); partial: that a "
                 "failing tokio task leaves the process and other tasks intact is observed, not proved. The check sends 26 families of "
                 "hostile streams to the real server while two other connections verify their own answers and the process stays up.",
         "design_ref": "DESIGN.md section 8, C10",
@@ -131,7 +132,8 @@ CHECKS.update({
                 "the selection can produce) and every valid iteration order, succeeds, preserves the invariant and leaves every "
                 "key reading as before, immediately and after any number of reopen cycles; the selection is proved closed "
                 "downwards over files holding records; the pinned selection is refuted by the D2 witness. Differential runs "
-                "bracket every merge and reopen with reads of every key.",
+                "bracket every merge and reopen with reads of every key. Seen from a connection (handler composed with the engine model): "
+                "merge passes between any two commands, in any order the index hands out, leave every reply byte unchanged.",
         "design_ref": "DESIGN.md section 8, C05", "note": STORE_NOTE,
         "technique": "Coq proof (merge loop invariant over the log + prefix-drop lemma) + differential correspondence",
     },
@@ -171,7 +173,7 @@ CHECKS.update({
                 "or hint decodes as end-of-input; for EVERY ready script - sets, deletes, reopens and merge passes - every crash "
                 "image of its system-call trace (any call boundary, the last write cut at any byte) reads as a directory that opens "
                 "to the map after the first n operations: acknowledged operations are all there, the one in flight entirely or not "
-                "at all; a merge pass is safe because its outputs only hold copies, are read through hint files written after the "
+                "at all (and the same for the server: the per-connection loop turns any byte stream into such a script); a merge pass is safe because its outputs only hold copies, are read through hint files written after the "
                 "data, and the selected files are removed in ascending order so the removed set stays closed downwards. The tie to "
                 "the code: every workload runs on the real store under an LD_PRELOAD recorder, the recorded trace is compared per "
                 "operation with the model's, and every prefix of the recorded calls (every boundary, byte cuts inside writes) is "
